@@ -32,6 +32,9 @@ def rec_single(r, name, type_, label, blob, plain, delims=(b" ", b" "), value=No
         # the two overlap partially, so neither contains the other and both are results of the enclosing text
         glue = r.choice([b"/usr/share/", b"./lib/scripts/", b"C:\\dir\\sub\\", b"\\\\host\\share\\", b"../aaa/"])
         dl = b" " + glue
+    if glue is None and wrap is None and delims == (b" ", b" ") and re.match(rb"[A-Za-z]{3,}\(", blob) and r.random() < 0.06:
+        # letters glued in front of the call name (StrReversed(, myatob(, xchr(): the patterns have no word boundary there
+        dl = b" " + r.choice([b"Str", b"str", b"x", b"my", b"Un", b"_", b"9"])
     if prefix.endswith(b" ") and dl[:1] == b" ":
         prefix = prefix[:-1]
     if r.random() < 0.07 and not OPERATOR_LITERAL.search(blob):
@@ -132,7 +135,11 @@ def c13_case(r):
         if len(chunks[-1].rstrip(b"=")) < 2 or any(len(c.rstrip(b"=")) < 4 for c in chunks[:-1]):
             return None
         blob = brk.join(chunks)
-        return rec_single(r, "b64-linebroken", "", "encoding.base64", blob, p)
+        delims = (b" ", b" ")
+        if r.random() < 0.25:
+            # wrapped text as the argument of a call: the call forms do not accept line breaks, the bare rule still applies
+            delims = r.choice([(b" atob('", b"') "), (b' Base64Decode("', b'") '), (b" FromBase64String('", b"' + x) "), (b' atob("', b'" + tail) ')])
+        return rec_single(r, "b64-linebroken", "", "encoding.base64", blob, p, delims)
     if k == 6:  # hex, lower / upper, 10 / 11 pairs and longer
         p = rand_payload(r, r.choice([10, 11, 12, 30]))
         return from_encoder(r, r.choice(["hex", "HEX"]), p)
@@ -193,6 +200,12 @@ def c14_case(r):
     if k == 0:  # all byte values, decimal / hex / mixed, runs of 5 / 6 / more
         p = rand_payload(r, r.choice([5, 6, 7, 20]), bytes(range(256)))
         rec = from_encoder(r, r.choice(["xmldec", "xmlhex", "xmlmix"]), p)
+        if rec is not None and not rec.get("wrap") and r.random() < 0.12:
+            # glued between words from the base64 alphabet that are not base64 by the documented rules (letters only)
+            e = layers.BY_NAME[rec["layers"][0]["name"]]
+            front = bytes(r.choice(b"abcdefghijklmnopqrstuvwxyzABCDEFGHIJKLMNOPQRSTUVWXYZ") for _ in range(r.choice([20, 24, 28, 40])))
+            back = r.choice([b"Zm9v", b"QUJD", b"ab", b"x9", b"abcd"])
+            return rec_single(r, e.name, e.type, e.label, rec["blob"], p, (b" " + front, back + b" "), wrap_p=0)
         if rec is not None and not rec.get("wrap") and r.random() < 0.3:
             # a reference outside 0..255 right next to the run does not belong to it
             e = layers.BY_NAME[rec["layers"][0]["name"]]
